@@ -91,7 +91,7 @@ fn early(world: &mut World, ca: &str, v: usize, idx: usize, at: i64) {
 
 fn generate(ctx: &mut Ctx) -> Vec<Value> {
     let mut cases = Vec::new();
-    let n = ctx.budget(42, 1500);
+    let n = ctx.budget(48, 1500);
     for i in 0..n {
         let mut rng = ctx.rng.fork();
         let cfg = TreeCfg {
